@@ -72,10 +72,15 @@ CLASS = 'CircuitFinderSat'
 # ALL of them must translate (callees are emitted first)
 COVERED = ['__init__', '_predecessors_variable', '_output_gate_variable', '_gate_value_variable',
            '_gate_type_variable', '_is_dont_cares_input', '_add_exactly_one_of', '_init_default_cnf_formula',
-           'get_cnf', 'fix_gate', 'forbid_wire']
+           'get_cnf', 'fix_gate', 'forbid_wire', '_get_circuit_by_model']
+
+# parameters annotated List[int] of methods that no translated method calls: ints or literals?
+ROOT_PARAM_TYPES = {('_get_circuit_by_model', 'model'): 'lit'}
+CIRCUIT_PY = 'cirbo/core/circuit/circuit.py'
 
 NAT, BOOL, LIT, TRI, ST, GTYPE, TT4, FMODEL, DIGIT, UNIT, ANY = \
     'nat', 'bool', 'lit', 'tri', 'st', 'gtype', 'tt4', 'fmodel', 'digit', 'unit', 'any'
+STR, CIRC = 'string', 'circuit'
 INTLIKE = 'intlike'            # `int` in a List[int] annotation: nat or literal, fixed by the first call
 
 
@@ -107,8 +112,9 @@ BASIS_IDIOM = ('if isinstance(basis, (str, Basis)):\n    _basis = resolve_basis(
 HEADER = '''(* GENERATED by translator/t17_search_enc.py from cirbo/synthesis/circuit_search.py
    (class CircuitFinderSat).  DO NOT EDIT.
    Proofs/SearchEncGen*.v prove every gen_* equal to the hand model Model/Search.v. *)
-Require Import Cirbo.Model.Base Cirbo.Model.Gate Cirbo.Model.Search Cirbo.Model.SearchPy.
-Require Import Cirbo.Generated.GateTypes.
+Require Import Cirbo.Model.Base Cirbo.Model.Gate Cirbo.Model.Circuit Cirbo.Model.Search Cirbo.Model.SearchCircuit
+               Cirbo.Model.SearchPy.
+Require Import Cirbo.Generated.GateTypes Cirbo.Generated.SearchTables.
 Local Open Scope nat_scope.
 '''
 
@@ -116,7 +122,7 @@ Local Open Scope nat_scope.
 def coq_ty(t):
     if t in (NAT, DIGIT):
         return 'nat'
-    if t in (BOOL, LIT, TRI, ST, GTYPE, TT4, FMODEL, UNIT):
+    if t in (BOOL, LIT, TRI, ST, GTYPE, TT4, FMODEL, UNIT, STR, CIRC):
         return t
     if t == 'finder':
         return 'finder'
@@ -168,7 +174,7 @@ def seq(pre, tail):
     out = []
     for kind, pat, code in pre:
         if kind == 'do':
-            out.append(f'sdo {pat} <- {code};')
+            out.append(f'sdo {pat.lstrip(chr(39))} <- {code};')
         else:
             out.append(f'let {pat} := {code} in')
     out.append(tail)
@@ -199,7 +205,8 @@ def assigned_names(stmts):
                 if isinstance(m, ast.Name) and m.id not in out:
                     out.append(m.id)
         if isinstance(n, ast.Expr) and isinstance(n.value, ast.Call) and isinstance(n.value.func, ast.Attribute) \
-                and n.value.func.attr == 'append' and isinstance(n.value.func.value, ast.Name) \
+                and n.value.func.attr in ('append', 'add_gate', 'mark_as_output') \
+                and isinstance(n.value.func.value, ast.Name) and n.value.func.value.id != 'self' \
                 and n.value.func.value.id not in out:
             out.append(n.value.func.value.id)
     return out
@@ -341,6 +348,38 @@ class Unit:
             if need not in top:
                 raise TranslatorError(f'{need} must be defined in the module')
 
+    def check_circuit_api(self):
+        """the Circuit methods the decoder drives are those of the hand model (Model/Circuit.add_gate = the model of
+        Circuit.add_gate(Gate(label, type, operands)), mark_as_output): check the parameter order it relies on"""
+        if getattr(self, '_api_ok', False):
+            return
+        cmod = parse(CIRCUIT_PY)
+        guard_module(cmod)
+        cls = [n for n in cmod.body if isinstance(n, ast.ClassDef) and n.name == 'Circuit']
+        if len(cls) != 1:
+            raise TranslatorError('class Circuit not found')
+        want = {'add_gate': ['self', 'new_gate'], 'mark_as_output': ['self', 'label']}
+        for st in cls[0].body:
+            if isinstance(st, ast.FunctionDef) and st.name in want:
+                if [a.arg for a in st.args.args] != want.pop(st.name) or st.args.kwonlyargs or st.args.vararg:
+                    fail(st, 'signature of a Circuit method the decoder uses')
+        if want:
+            raise TranslatorError(f'Circuit methods missing: {sorted(want)}')
+        gmod = parse(GATE_PY)
+        guard_module(gmod)
+        gcl = [n for n in gmod.body if isinstance(n, ast.ClassDef) and n.name == 'Gate']
+        init = [st for st in gcl[0].body if isinstance(st, ast.FunctionDef) and st.name == '__init__'] if gcl else []
+        if len(init) != 1 or [a.arg for a in init[0].args.args] != ['self', 'label', 'gate_type', 'operands'] \
+                or ast.unparse(init[0].args.defaults[0]) != '()' or len(init[0].args.defaults) != 1:
+            raise TranslatorError('Gate.__init__(self, label, gate_type, operands=()) expected')
+        self._api_ok = True
+
+    def check_t3(self):
+        if not getattr(self, '_t3_ok', False):
+            from . import t3_search
+            t3_search.extract()          # raises unless _get_GateType_by_tt / _tt_to_gate_type are in T3's grammar
+            self._t3_ok = True
+
     def gate_type_is_always_truthy(self):
         if not self.gate_type_truthy_checked:
             gmod = parse(GATE_PY)
@@ -429,6 +468,11 @@ class Unit:
         if not allp or allp[0].arg != 'self':
             fail(m.node, 'first parameter must be self')
         m.params = [(p.arg, self.ann(p.annotation, p.arg)) for p in allp[1:]]
+        for i, (pn, ty) in enumerate(m.params):
+            if (m.name, pn) in ROOT_PARAM_TYPES:
+                if ty != TL(INTLIKE):
+                    fail(m.node, f'{pn}: ROOT_PARAM_TYPES applies to List[int] parameters')
+                m.params[i] = (pn, TL(ROOT_PARAM_TYPES[(m.name, pn)]))
         m.n_positional = len(a.args) - 1
 
     def translated(self, name, node=None):
@@ -457,6 +501,10 @@ class FnTr:
         self.src = m.node
         self.body = strip_docstring(m.node.body)
         self.appended = self.locals_appended()
+        self.circuits = {n.func.value.id for n in walk_stmts(self.body)
+                         if isinstance(n, ast.Call) and isinstance(n.func, ast.Attribute)
+                         and isinstance(n.func.value, ast.Name) and n.func.value.id != 'self'
+                         and n.func.attr in ('add_gate', 'mark_as_output')}
         self.gen_uses = {}
 
     def temp(self):
@@ -597,8 +645,10 @@ class FnTr:
         if isinstance(t, ast.Name):
             if isinstance(s.value, ast.GeneratorExp):
                 return self.st_assign_gen(t.id, s, env, cont, rest)
-            if isinstance(s.value, ast.Name) and s.value.id in self.appended:
-                fail(s, 'alias of a list that is updated in place')
+            if isinstance(s.value, ast.Name) and (s.value.id in self.appended or s.value.id in self.circuits):
+                fail(s, 'alias of a list / circuit that is updated in place')
+            if t.id in self.circuits and not self.is_new_circuit(s.value):
+                fail(s, 'a circuit that is updated in place must be created by Circuit()')
             if t.id in self.appended and not (isinstance(s.value, ast.List) and not s.value.elts):
                 fail(s, 'a list that is appended to must be created by []')
             v = self.expr(s.value, env, pre)
@@ -668,6 +718,28 @@ class FnTr:
                 else:
                     pre.append(('do', '_', app))
                 return seq(pre, cont(env))
+            # <local circuit>.add_gate(Gate(l, t[, ops])) / .mark_as_output(l): the hand model's Circuit API
+            if isinstance(f.value, ast.Name) and f.value.id in self.circuits and f.attr in ('add_gate', 'mark_as_output'):
+                name = f.value.id
+                if name not in env or env[name].ty != CIRC or len(c.args) != 1 or c.keywords:
+                    fail(s, 'circuit method call outside grammar')
+                self.u.check_circuit_api()
+                if f.attr == 'mark_as_output':
+                    l = self.as_ty(c.args[0], env, pre, STR)
+                    call = f'mark_as_output {env[name].code} {paren(l.code)}'
+                else:
+                    g = c.args[0]
+                    if not (isinstance(g, ast.Call) and isinstance(g.func, ast.Name) and g.func.id == 'Gate'
+                            and self.u.imports.get('Gate') == ('cirbo.core.circuit', 'Gate')
+                            and not g.keywords and len(g.args) in (2, 3)):
+                        fail(s, 'add_gate of something that is not Gate(label, type[, operands])')
+                    l = self.as_ty(g.args[0], env, pre, STR)
+                    t = self.as_ty(g.args[1], env, pre, GTYPE)
+                    ops = self.as_ty(g.args[2], env, pre, TL(STR)).code if len(g.args) == 3 else '[]'
+                    call = f'add_gate {env[name].code} {paren(l.code)} {paren(t.code)} {paren(ops)}'
+                pre.append(('do', 'v_' + name, f'lift ({call})'))
+                env[name] = Val('v_' + name, CIRC)
+                return seq(pre, cont(env))
             # local.append(e)
             if isinstance(f.value, ast.Name) and f.attr == 'append' and f.value.id in self.appended:
                 name = f.value.id
@@ -734,6 +806,12 @@ class FnTr:
                         for cnd in cands:
                             if isinstance(cnd, ast.Name) and cnd.id in self.scope_types(stmts, env):
                                 ty = unify(ty, self.scope_types(stmts, env)[cnd.id], node)
+            if has_any(ty) and ty == TL(ANY):
+                for x in walk_stmts(stmts):
+                    if isinstance(x, ast.Call) and isinstance(x.func, ast.Attribute) and x.func.attr == 'append' \
+                            and isinstance(x.func.value, ast.Name) and x.func.value.id == n and len(x.args) == 1 \
+                            and isinstance(x.args[0], ast.Constant) and isinstance(x.args[0].value, bool):
+                        ty = TL(BOOL)
             if has_any(ty):
                 fail(node, f'type of {n} cannot be determined')
             tys[n] = ty
@@ -787,7 +865,7 @@ class FnTr:
         after = dict(env)
         for n in names:
             after[n] = Val('v_' + n, tys[n])
-        code = f'sdo {pat} <- (if {test} then\n{ind(a)}\nelse\n{ind(b)});'
+        code = f'sdo {pat.lstrip(chr(39))} <- (if {test} then\n{ind(a)}\nelse\n{ind(b)});'
         return seq(pre, code + '\n' + cont(after))
 
     def target(self, t, ty):
@@ -816,7 +894,7 @@ class FnTr:
         mut = self.u.stmts_mutate(s.body)
         names = self.carried_locals(s.body, env, s.end_lineno, s)
         names = [n for n in names if n not in binds]
-        tys = self.resolve_carried_types(names, s.body, env, s)
+        tys = self.resolve_carried_types(names, [s], env, s)
         brk = breaks_here(s.body)
         spat, parts = self.state(mut, names)
         init = self.state_value(mut, names, tys, env, s)
@@ -834,7 +912,7 @@ class FnTr:
 
         body = self.block(s.body, benv, Ctx(None, fall, leave), fall)
         comb = 'sloop' if brk else 'sfoldM'
-        code = f'sdo {spat} <- {comb} (fun {spat if spat != "_" else "_"} {pat} =>\n{ind(body)}) {paren(it)} {paren(init)};'
+        code = f'sdo {spat.lstrip(chr(39))} <- {comb} (fun {spat if spat != "_" else "_"} {pat} =>\n{ind(body)}) {paren(it)} {paren(init)};'
         after = dict(env)
         for n in names:
             after[n] = Val('v_' + n, tys[n])
@@ -947,6 +1025,8 @@ class FnTr:
                 return Val('None', TO(ANY))
             if type(node.value) is int and node.value >= 0:
                 return Val(str(node.value), NAT)
+            if isinstance(node.value, str) and all(32 <= ord(ch) < 127 and ch != '"' for ch in node.value):
+                return Val(f'"{node.value}"%string', STR)
             fail(node, 'constant outside grammar')
         if isinstance(node, ast.Name):
             if node.id in env:
@@ -956,6 +1036,8 @@ class FnTr:
                 if node.id in self.appended and not isinstance(node.ctx, ast.Load):
                     fail(node, 'store')
                 return v
+            if node.id in GTYPES and self.u.imports.get(node.id) == ('cirbo.core.circuit', node.id):
+                return Val(node.id, GTYPE)
             fail(node, f'unknown name {node.id}')
         if isinstance(node, ast.Attribute):
             return self.attribute(node, env, pre)
@@ -996,9 +1078,9 @@ class FnTr:
             return Val('[' + '; '.join(v.code for v in vals) + ']', TL(ty))
         if isinstance(node, ast.Tuple):
             vals = [self.expr(e, env, pre) for e in node.elts]
-            if not vals or any(v.ty != NAT for v in vals):
-                fail(node, 'tuple outside grammar (only tuples of ints, as the right operand of `in`)')
-            return Val('[' + '; '.join(v.code for v in vals) + ']', TL(NAT))
+            if not vals or any(v.ty != vals[0].ty for v in vals) or vals[0].ty not in (NAT, STR):
+                fail(node, 'tuple outside grammar (only tuples of ints or of labels, read as sequences)')
+            return Val('[' + '; '.join(v.code for v in vals) + ']', TL(vals[0].ty))
         if isinstance(node, ast.ListComp):
             g = self.genexp(node, env, pre)
             if g['pre']:
@@ -1057,6 +1139,13 @@ class FnTr:
                 fail(node, 'division by something that is not a positive literal')
             fn = 'Nat.div' if isinstance(op, ast.FloorDiv) else 'Nat.modulo'
             return Val(f'{fn} {paren(a.code)} {node.right.value}', NAT)
+        if isinstance(op, ast.Add):
+            p0 = []
+            l = self.expr(node.left, dict(env), p0)
+            if l.ty == STR:
+                l = self.expr(node.left, env, pre)
+                r = self.as_ty(node.right, env, pre, STR)
+                return Val(f'({paren(l.code)} ++ {paren(r.code)})%string', STR)
         if isinstance(op, (ast.Add, ast.Mult, ast.BitAnd)):
             a = self.as_ty(node.left, env, pre, NAT)
             b = self.as_ty(node.right, env, pre, NAT)
@@ -1151,7 +1240,9 @@ class FnTr:
             b = self.expr(r, env, pre)
             if not (isinstance(b.ty, tuple) and b.ty[0] == 'list'):
                 fail(node, '`in` on something that is not a list')
-            if b.ty[1] == NAT:
+            if b.ty[1] == NAT and a.ty == TO(NAT):
+                c = f'opt_mem_nat {paren(a.code)} {paren(b.code)}'        # None in l is False
+            elif b.ty[1] == NAT:
                 a = self.coerce(a, NAT, env, pre, node, l.id if isinstance(l, ast.Name) else None)
                 c = f'mem_nat {paren(a.code)} {paren(b.code)}'
             elif b.ty[1] == LIT and a.ty == LIT:
@@ -1321,10 +1412,25 @@ class FnTr:
             b = self.expr(f.value, env, pre)
             if b.ty == FMODEL:
                 return Val(f'fm_table {paren(b.code)}', TL(TL(TRI)))
+        if self.is_new_circuit(node):
+            return Val('empty_circuit', CIRC)
+        if isinstance(f, ast.Name) and f.id == '_get_GateType_by_tt' and f.id not in env and f.id not in self.u.imports:
+            # T3 checks that its body is `return _tt_to_gate_type[tuple(gate_tt)]` and emits the table
+            self.u.check_t3()
+            if len(node.args) != 1 or node.keywords:
+                fail(node, 'call of _get_GateType_by_tt')
+            v = self.as_ty(node.args[0], env, pre, TL(BOOL))
+            t = self.temp()
+            pre.append(('do', t, f'tt4_of_list {paren(v.code)}'))
+            return Val(f'tt_to_gate_type {t}', GTYPE)
         if isinstance(f, ast.Name) and f.id not in env and f.id not in self.u.imports \
                 and not any(isinstance(n, (ast.FunctionDef, ast.ClassDef)) and n.name == f.id for n in self.u.mod.body):
             return self.builtin(node, f.id, env, pre)
         fail(node, 'call outside grammar')
+
+    def is_new_circuit(self, node):
+        return isinstance(node, ast.Call) and isinstance(node.func, ast.Name) and node.func.id == 'Circuit' \
+            and self.u.imports.get('Circuit') == ('cirbo.core.circuit', 'Circuit') and not node.args and not node.keywords
 
     def pool_id(self, node, env, pre):
         if len(node.args) != 1 or node.keywords or not isinstance(node.args[0], ast.JoinedStr):
@@ -1386,6 +1492,15 @@ class FnTr:
             if v.ty == BOOL:
                 return Val(f'b2n {paren(v.code)}', NAT)
             fail(node, f'int() of a {v.ty}')
+        if name == 'str' and len(args) == 1:
+            v = self.expr(args[0], env, pre)
+            if v.ty == STR:
+                return v
+            if v.ty == NAT:
+                return Val(f'nat_str {paren(v.code)}', STR)
+            if v.ty == TO(NAT):
+                return Val(f'opt_nat_str {paren(v.code)}', STR)           # str(None) = 'None'
+            fail(node, f'str() of a {v.ty}')
         if name == 'bool' and len(args) == 1:
             v = self.expr(args[0], env, pre)
             return Val(self.truth_of(v, env, pre, node), BOOL)
